@@ -8,4 +8,10 @@ theorem roundGap_pos : 0 < config_SnapshotRoundGap := by decide
 /-- `start + SnapshotRoundGap` is computed in uint64 -/
 theorem roundGap_lt : config_SnapshotRoundGap < 2 ^ 64 := by decide
 
+/-- the validator's round hash touches no package-level variable of `storage` (it runs in one
+    goroutine per node: shared scratch state would make its result depend on the schedule) -/
+theorem validator_uses_no_package_variable : storage_computeRoundHash_globals = [] := by decide
+/-- neither does the live node's -/
+theorem common_uses_no_package_variable : common_ComputeRoundHash_globals = [] := by decide
+
 end Mixin.Facts.ExpectedC18
